@@ -81,9 +81,16 @@ def observe_frame(vec: Dict[str, Any]) -> Dict[str, Any]:
 def _kw(vec):
     opts = vec.get("opts", {})
     kw = {}
-    for k in ("lazy", "inplace", "head", "tail", "sample", "random_state"):
+    for k in ("lazy", "inplace"):
         if opts.get(k) is not None:
             kw[k] = opts[k]
+    # the specification writes "option not given" as -1 (head/tail) and 0 (sample)
+    for k in ("head", "tail"):
+        if opts.get(k) is not None and opts[k] >= 0:
+            kw[k] = opts[k]
+    if opts.get("sample"):
+        kw["sample"] = opts["sample"]
+        kw["random_state"] = opts.get("random_state", 0)
     return kw
 
 
@@ -99,6 +106,14 @@ def _run_once(schema_of, obj, project, vec) -> Dict[str, Any]:
     except Exception as exc:  # noqa: BLE001
         res["input_after"] = {"unprojectable": repr(exc)}
     res["input_type"] = kind0
+    opts = vec.get("opts", {})
+    if opts.get("sample"):
+        # the sampled positions are an environment input of the specification: confirm them with pandas itself
+        import pandas as pd
+
+        n = len(obj)
+        res["sample_positions"] = [int(p) + 1 for p in
+                                   pd.Series(range(n)).sample(opts["sample"], random_state=opts.get("random_state", 0)).tolist()]
     return res
 
 
